@@ -7,6 +7,7 @@ CONSTANTS
   Ambients = {"A"}
   Threads = {"main"}
   Resolution = "captured"
+  UnwindDrops = FALSE
   Depth = 9
 SPECIFICATION RSpec
 INVARIANT Emit
